@@ -112,6 +112,109 @@ def if_assign(binds, target):
     return build
 
 
+def _const_tuple(node):
+    """nested tuple / list of integer constants -> python value, else None"""
+    if isinstance(node, (ast.Tuple, ast.List)):
+        out = [_const_tuple(e) for e in node.elts]
+        return None if any(o is None for o in out) else tuple(out)
+    if isinstance(node, ast.Constant) and isinstance(node.value, int) and not isinstance(node.value, bool):
+        return node.value
+    if isinstance(node, ast.UnaryOp) and isinstance(node.op, ast.USub) and isinstance(node.operand, ast.Constant) \
+            and isinstance(node.operand.value, int):
+        return -node.operand.value
+    return None
+
+
+def _const_node(v):
+    return ast.UnaryOp(op=ast.USub(), operand=ast.Constant(value=-v)) if v < 0 else ast.Constant(value=v)
+
+
+def resolve_locals(fn, node, bound: set, depth: int = 0):
+    """`node` with every local name that is not in `bound` replaced by its definition: a single plain assignment, an
+    `if c: x = a else: x = b` pair (-> `a if c else b`), or a tuple unpacking from a constant table indexed by an
+    expression, `a, b = TABLE[e]` (-> a chain of conditional expressions on `e`)."""
+    if depth > 12:
+        raise Untranslatable("definitions nest too deeply")
+    stmts = list(all_stmts(fn))
+
+    def definition(name):
+        plain, ifs, unpack = [], [], []
+        for st in stmts:
+            if isinstance(st, ast.Assign) and len(st.targets) == 1:
+                t = st.targets[0]
+                if isinstance(t, ast.Name) and t.id == name:
+                    plain.append(st)
+                if isinstance(t, ast.Tuple) and any(isinstance(e, ast.Name) and e.id == name for e in t.elts):
+                    unpack.append(st)
+            if isinstance(st, ast.If) and st.orelse:
+                def val(body):
+                    vs = [x.value for x in body if isinstance(x, ast.Assign) and len(x.targets) == 1
+                          and isinstance(x.targets[0], ast.Name) and x.targets[0].id == name]
+                    return vs[0] if len(vs) == 1 else None
+                a, b = val(st.body), val(st.orelse)
+                if a is not None and b is not None:
+                    ifs.append(ast.IfExp(test=st.test, body=a, orelse=b))
+        if len(ifs) == 1 and len(plain) == 2 and not unpack:
+            return ifs[0]
+        if len(plain) == 1 and not ifs and not unpack:
+            return plain[0].value
+        if len(unpack) == 1 and not plain and not ifs:
+            st = unpack[0]
+            pos = [i for i, e in enumerate(st.targets[0].elts) if isinstance(e, ast.Name) and e.id == name][0]
+            v = st.value
+            if isinstance(v, ast.Subscript):
+                table = _const_tuple(v.value)
+                if table is None and isinstance(v.value, ast.Name):
+                    d = definition(v.value.id)
+                    table = _const_tuple(d) if d is not None else None
+                if (isinstance(table, tuple) and table and all(isinstance(r, tuple) and len(r) > pos and isinstance(r[pos], int)
+                                                                 for r in table)):
+                    out = _const_node(table[-1][pos])
+                    for k in range(len(table) - 2, -1, -1):
+                        out = ast.IfExp(test=ast.Compare(left=v.slice, ops=[ast.Eq()], comparators=[ast.Constant(value=k)]),
+                                        body=_const_node(table[k][pos]), orelse=out)
+                    return out
+        return None
+
+    class R(ast.NodeTransformer):
+        def visit_Name(self, n):
+            if n.id in bound:
+                return n
+            d = definition(n.id)
+            if d is None:
+                raise Untranslatable(f"no unique definition of local `{n.id}`")
+            return resolve_locals(fn, d, bound, depth + 1)
+
+    import copy
+
+    return ast.fix_missing_locations(R().visit(copy.deepcopy(node)))
+
+
+def slice_start(binds, array: str):
+    """lower bound `e` of the statement `<array>[e::step] = True`, locals resolved"""
+
+    def build(k, fn):
+        for st in all_stmts(fn):
+            if (isinstance(st, ast.Assign) and len(st.targets) == 1 and isinstance(st.targets[0], ast.Subscript)
+                    and ast.unparse(st.targets[0].value) == array and isinstance(st.targets[0].slice, ast.Slice)
+                    and st.targets[0].slice.lower is not None):
+                e = resolve_locals(fn, st.targets[0].slice.lower, set(binds))
+                return emit_def(k.name, k.params, [], Tr(binds).int(e))
+        raise Untranslatable(f"`{array}[start::step] = …` not found")
+
+    return build
+
+
+def resolved_value(binds, target: str):
+    """value of the single assignment to `target`, locals resolved"""
+
+    def build(k, fn):
+        st = find_assign(fn, target, 0)
+        return emit_def(k.name, k.params, [], Tr(binds).int(resolve_locals(fn, st.value, set(binds))))
+
+    return build
+
+
 register("C04", [
     Kernel("call_rejects_rank", F, "BaseMaskFunc.__call__", ["rank"], "(fun rank => decide (rank < 3))",
            guard_condition({"len(shape)": "rank"}, 0), ret_type="Bool", imports=MG),
@@ -123,14 +226,16 @@ register("C04", [
            not_in_guard("len(shape)", "rank"), ret_type="Bool", imports=MG)
     for cls in ("KtRadial", "KtUniform", "KtGaussian1D")
 ] + [
+    # start of the comb in the positive / negative half (whatever the names of the intermediate locals, whether the parity
+    # decision is an if/else or a table lookup) and the two half lengths
     Kernel("magic_offset_pos", F, "MagicMaskFunc.mask_func", ["offset"], "MaskGeom.magicOffPos",
-           if_assign({"offset": "offset"}, "offset_pos"), imports=MG),
+           slice_start({"offset": "offset"}, "mask_positive"), imports=MG),
     Kernel("magic_offset_neg", F, "MagicMaskFunc.mask_func", ["offset"], "MaskGeom.magicOffNeg",
-           if_assign({"offset": "offset"}, "offset_neg"), imports=MG),
+           slice_start({"offset": "offset"}, "mask_negative"), imports=MG),
     Kernel("magic_poslen", F, "MagicMaskFunc.mask_func", ["num_cols"], "MaskGeom.magicPosLen",
-           assign_value({"num_cols": "num_cols"}, "poslen"), imports=MG),
+           resolved_value({"num_cols": "num_cols"}, "poslen"), imports=MG),
     Kernel("magic_neglen", F, "MagicMaskFunc.mask_func", ["num_cols"], "MaskGeom.magicNegLen",
-           assign_value({"num_cols": "num_cols"}, "neglen"), imports=MG),
+           resolved_value({"num_cols": "num_cols"}, "neglen"), imports=MG),
     # k-t grid helpers
     Kernel("kt_linear_x", F, "KtBaseMaskFunc.linear_indices_to_2d_coordinates", ["idx", "row"],
            "(fun idx row => (MaskGeom.linear2d idx row).1)", tr_assign({"indices": "idx", "row_length": "row"}, "x_coords"),
@@ -438,6 +543,49 @@ class Asm:
         self.taint_shared: set[str] = set()     # names holding something drawn once, outside the frame loop
         self.returns: dict[str, list] = {"acs": [], "mask": []}
         self.poisson_ors_acs = None
+        self.framed: set[str] = set()           # arrays whose first axis is the frame axis (`.reshape(num_slc_or_time, -1)`)
+        self.draw_callables: set[str] = set()   # locals bound to a drawing method (`f = self._helper()` returning one)
+        self.module = None                      # the module tree (for constant tables), set by `assembly_table`
+
+    def _returns_draw_method(self, call) -> bool:
+        """`self.<helper>(…)` whose every non-None return is a drawing method of the class: `self.<m>` or
+        `getattr(self, <name>)` with the name taken from a module-level constant table of method names"""
+        if not (isinstance(call, ast.Call) and isinstance(call.func, ast.Attribute) and isinstance(call.func.value, ast.Name)
+                and call.func.value.id == "self"):
+            return False
+        try:
+            helper = _resolve(self.classes, self.name + "MaskFunc", call.func.attr)
+        except Untranslatable:
+            return False
+        consts = {}
+        if self.module is not None:
+            for n in self.module.body:
+                if isinstance(n, ast.Assign) and len(n.targets) == 1 and isinstance(n.targets[0], ast.Name):
+                    consts[n.targets[0].id] = n.value
+        found = []
+        for r in ast.walk(helper):
+            if not isinstance(r, ast.Return) or r.value is None or (isinstance(r.value, ast.Constant) and r.value.value is None):
+                continue
+            v = r.value
+            if isinstance(v, ast.Attribute) and ast.unparse(v) in DRAW_FUNCS:
+                found.append(True)
+            elif (isinstance(v, ast.Call) and ast.unparse(v.func) == "getattr" and len(v.args) == 2
+                  and ast.unparse(v.args[0]) == "self"):
+                names = []
+                if isinstance(v.args[1], ast.Constant):
+                    names = [v.args[1].value]
+                else:
+                    # the name comes from a loop over a module-level table: every string of the table that names a method
+                    for loop in ast.walk(helper):
+                        if isinstance(loop, ast.For) and isinstance(loop.iter, ast.Name) and loop.iter.id in consts:
+                            names += [c.value for c in ast.walk(consts[loop.iter.id]) if isinstance(c, ast.Constant)
+                                      and isinstance(c.value, str) and c.value.isidentifier()
+                                      and any(isinstance(m, ast.FunctionDef) and m.name == c.value
+                                              for cl in self.classes.values() for m in cl.body)]
+                found.append(bool(names) and all("self." + nm in DRAW_FUNCS for nm in names))
+            else:
+                found.append(False)
+        return bool(found) and all(found)
 
     # -- expressions
     def has_draw(self, node) -> bool:
@@ -450,7 +598,8 @@ class Asm:
         for n in ast.walk(node):
             if isinstance(n, ast.Attribute) and ast.unparse(n).startswith("self.rng."):
                 direct = True
-            if isinstance(n, ast.Call) and ast.unparse(n.func) in DRAW_FUNCS:
+            if isinstance(n, ast.Call) and (ast.unparse(n.func) in DRAW_FUNCS
+                                            or (isinstance(n.func, ast.Name) and n.func.id in self.draw_callables)):
                 direct = True
             if isinstance(n, ast.Name):
                 framed = framed or n.id in self.taint
@@ -520,7 +669,13 @@ class Asm:
                 return self.fresh(ctx, node)
             return OTHER
         if isinstance(node, ast.IfExp):
-            return ("ite", self.ab(node.body, ctx), self.ab(node.orelse, ctx))
+            a, b = self.ab(node.body, ctx), self.ab(node.orelse, ctx)
+            if EMPTY in (a, b):                     # an empty frame list cannot be stacked: only the other branch returns
+                return b if a == EMPTY else a
+            return ("ite", a, b)
+        if isinstance(node, ast.ListComp) and len(node.generators) == 1 and not node.generators[0].ifs \
+                and ast.unparse(node.generators[0].iter).replace(" ", "") == "range(num_slc_or_time)":
+            return self.ab(node.elt, dict(ctx, loop=True, frame=True))      # one element per frame
         if isinstance(node, ast.Attribute) and node.attr == "T":
             return self.ab(node.value, ctx)
         if isinstance(node, (ast.List, ast.Tuple)):
@@ -548,6 +703,11 @@ class Asm:
         if isinstance(st, ast.Assign) and len(st.targets) == 1:
             tgt, val = st.targets[0], st.value
             if isinstance(tgt, ast.Name):
+                if self._returns_draw_method(val):
+                    self.draw_callables.add(tgt.id)
+                    return
+                if "reshape(num_slc_or_time" in ast.unparse(val).replace(" ", ""):
+                    self.framed.add(tgt.id)
                 v = self.ab(val, ctx)
                 if self.has_draw(val):
                     self.add_taint(tgt.id, val, ctx)
@@ -583,6 +743,16 @@ class Asm:
                     self.env[base] = OTHER
                 return
             return
+        if isinstance(st, ast.AugAssign) and isinstance(st.target, ast.Name) and isinstance(st.op, (ast.BitOr, ast.Add)):
+            # `x |= E` (in place: for a row view of a framed array the loop copies the value back)
+            t = st.target.id
+            v = self.ab(st.value, ctx)
+            if self.has_draw(st.value):
+                self.add_taint(t, st.value, ctx)
+                if v == OTHER:
+                    v = self.fresh(ctx, st.value)
+            self.env[t] = ("or", self.env.get(t, OTHER), v)
+            return
         if isinstance(st, ast.Expr) and isinstance(st.value, ast.Call):
             c = st.value
             f = ast.unparse(c.func)
@@ -604,6 +774,13 @@ class Asm:
             it = ast.unparse(st.iter).replace(" ", "")
             if it == "range(num_slc_or_time)":
                 self.run(st.body, dict(ctx, loop=True, frame=True, var=ast.unparse(st.target)))
+            elif (isinstance(st.iter, ast.Name) and st.iter.id in self.framed and st.iter.id in self.env
+                  and isinstance(st.target, ast.Name)):
+                # `for row in X` over the frame axis of X: `row` is a view of frame i of X
+                src, row = st.iter.id, st.target.id
+                self.env[row] = self.env[src]
+                self.run(st.body, dict(ctx, loop=True, frame=True, var=None))
+                self.env[src] = self.env.pop(row)
             else:
                 self.run(st.body, ctx)
             return
@@ -655,6 +832,7 @@ def assembly_table(tree) -> str:
     for name in GENERATORS:
         fn = _resolve(classes, name + "MaskFunc", "mask_func")
         a = Asm(classes, name)
+        a.module = tree
         a.run(fn.body, {"loop": False, "frame": False, "var": None})
         rows.append(f'("{name}", {_lean_bexp(_join(a.returns["mask"]))}, {_lean_bexp(_join(a.returns["acs"]))})')
     return ("def assembly_table : List (String × MaskGeom.BExp × MaskGeom.BExp) :=\n  [" + ",\n   ".join(rows) + "]\n")
